@@ -2,5 +2,5 @@ CONSTANTS MaxH = 10
  Known = {}
 INIT Init
 NEXT Next
-INVARIANTS PredictedAllowed Export
+INVARIANTS Export
 CHECK_DEADLOCK FALSE
